@@ -1,6 +1,6 @@
 (** C15: exit_on_error (set -e) and the function table as shell state, threaded through
-    run_script / run_lines / try_run_func / source, with the reset of exit_on_error where the
-    code has it (the end of run_script: scripting.rs, "work-around ugly fix").
+    run_script / run_lines / try_run_func / source, with exit_on_error saved at the start of run_script and
+    restored at its end (scripting.rs, since 3fef4c9).
     Transcription for scripts whose lines are: `set -e`, `source <path>`, a call of a defined
     function, or an external command (status given by the oracle [ext]). The block structure
     is that of Model/Script.v (run_lines is reused, with this file's [exec_line] as its
@@ -73,8 +73,8 @@ with run_script (fuel : nat) (w : shs) (path : str) {struct fuel} : shs * Z :=
             | Some (Done w1 crs _ _) => (w1, crs)
             | _ => (w0, [])
             end in
-          (* sh.exit_on_error = false;  -- the reset site *)
-          (mk_shs false (s_funcs w1) (s_log w1), script_status crs)
+          (* sh.exit_on_error = exit_on_error_saved;  -- since 3fef4c9 the caller's flag is restored *)
+          (mk_shs (s_eoe w) (s_funcs w1) (s_log w1), script_status crs)
       end
   end.
 
